@@ -1,5 +1,5 @@
 """Path-forking symbolic executor for the LLVM-14 IR subset clang emits for covfie (DESIGN.md 2.3)."""
-import sys, time, re, json
+import sys, os, time, re, json
 from fractions import Fraction
 import z3
 from irparse import *
@@ -1014,7 +1014,33 @@ class Engine:
             s.paths.append({'how': how, 'tainted': st.tainted, 'pc': list(st.pc), 'observes': list(st.observes),
                             'asserted': list(st.asserted), 'state': st})
         if how == 'returned' and len(s.traces) < s.cfg.max_traces and not st.tainted:
-            r, m = s.check(st, want_model=True)
+            r, m = 'unknown', None
+            if s.A.name == 'BITS' and len(st.inputs) <= 64:
+                # prefer a model whose inputs are pairwise distinct and non-zero: a differential run on all-equal / all-zero inputs
+                # cannot see a permuted or dropped value (best effort, small budget; falls back to any model)
+                try:
+                    for kinds in (None, ('u64', 'u32', 'u16', 'u8', 'f32', 'f64', 'size', 'i32', 'i64')):
+                        groups = {}
+                        for kd, _, v in st.inputs:
+                            if z3.is_expr(v) and z3.is_bv(v) and (kinds is None or kd in kinds):
+                                groups.setdefault(v.size(), []).append(v)
+                        div = []
+                        for vs in groups.values():
+                            vs = vs[:24]
+                            div += [v != 0 for v in vs]
+                            div += [vs[i] != vs[j] for i in range(len(vs)) for j in range(i + 1, len(vs))]
+                        if div:
+                            r, m = s._check_with(s.solver, st, z3.And(*div), True)
+                            if r != 'sat' and s.fallback is not None:
+                                r, m = s._check_with(s.fallback, st, z3.And(*div), True)
+                        if r == 'sat':
+                            break
+                except Exception as ex:
+                    if os.environ.get('VF_DEBUG'): print('diverse-model query failed:', repr(ex), file=sys.stderr)
+                    r, m = 'unknown', None
+            if os.environ.get('VF_DEBUG'): print('diverse-model:', r, [type(v).__name__ for _, _, v in st.inputs][:6], file=sys.stderr)
+            if r != 'sat':
+                r, m = s.check(st, want_model=True)
             if r == 'sat':
                 obs = []
                 for k, v in st.observes:
